@@ -146,6 +146,37 @@ func vPickString(idx int, options ...string) string {
 	}
 	return options[idx]
 }
+func vAllBytesIn(s string, lo, hi int, set string) bool {
+	for i := lo; i < hi && i < len(s); i++ {
+		if i < 0 {
+			continue
+		}
+		ok := false
+		for k := 0; k < len(set); k++ {
+			if set[k] == s[i] {
+				ok = true
+			}
+		}
+		if !ok {
+			return false
+		}
+	}
+	return true
+}
+func vNoBytesIn(s string, lo, hi int, set string) bool {
+	for i := lo; i < hi && i < len(s); i++ {
+		if i < 0 {
+			continue
+		}
+		for k := 0; k < len(set); k++ {
+			if set[k] == s[i] {
+				return false
+			}
+		}
+	}
+	return true
+}
+func vHasPrefixS(s, p string) bool { return len(s) >= len(p) && s[:len(p)] == p }
 func vAll(c ...bool) bool {
 	for _, x := range c {
 		if !x {
